@@ -38,6 +38,8 @@ func (q *vQueue) Add(item interface{}) {
 func (q *vQueue) AddRateLimited(item interface{}) {
 	q.log = append(q.log, fmt.Sprintf("addRateLimited %v", item))
 }
+// NumRequeues: how often the key has failed before is arbitrary.
+func (q *vQueue) NumRequeues(item interface{}) int { return sym.IntIn("requeues", 0, 40) }
 func (q *vQueue) Forget(item interface{}) { q.log = append(q.log, fmt.Sprintf("forget %v", item)) }
 func (q *vQueue) Done(item interface{})   { q.log = append(q.log, fmt.Sprintf("done %v", item)) }
 func (q *vQueue) Get() (interface{}, bool) {
